@@ -1,12 +1,249 @@
 import FatVerif.Model.Util
 import FatVerif.Model.Basic
-/-! pure-probe driver for suite `Fat` — STUB, to be replaced (see /verif/ARCH.md). -/
+import FatVerif.Model.FatCodec
+import FatVerif.Model.FatAlgo
+import FatVerif.Spec.FatTable
+/-!
+pure-probe driver for suite `fat` (see /verif/ARCH.md).
+
+```
+fat.get        <bits> <fathex> <cluster>                 => <kind> <n> | ERR c | PANIC      (kind 0 free,1 data,2 bad,3 eoc)
+fat.set        <bits> <fathex> <cluster> <kind> <n>      => <fathex'> | ERR c | PANIC
+fat.find_free  <bits> <fathex> <start> <end>             => <c> | ERR c | PANIC
+fat.count_free <bits> <fathex> <total>                   => <n> | ERR c | PANIC
+fat.alloc      <bits> <fathex> <prev|none> <hint|none> <total> => <c> <fathex'> | ERR c <fathex'> | PANIC
+fat.free       <bits> <fathex> <cluster> <budget>        => <n> <fathex'> | ERR c <fathex'> | HANG | PANIC
+fat.truncate   <bits> <fathex> <cluster> <budget>        => likewise
+fat.chain      <bits> <fathex> <cluster> <max>           => c,c,c | - | ERR c | PANIC
+fat.flags      <bits> <fathex>                           => <dirty> <ioerr> | ERR c
+fat.format     <bits> <media> <bytes_per_fat> <total>    => <fathex> | ERR c <fathex'> | PANIC  (stream = bytes_per_fat zero bytes)
+```
+-/
 namespace FatVerif.FatDriver
+open FatVerif.Util FatVerif.Fat
 
-def handle (_fn : String) (_args : List String) : Option String := none
+def fatOf (s : String) : Option (Array Nat) := (bytesOfHex s).map List.toArray
 
-def oracle (_fn : String) (_args : List String) (_implOut : List String) : Option String := none
+def hexOf (f : Array Nat) : String := hexOfBytes f.toList
 
-def branch (_fn : String) (_args : List String) : String := "-"
+def errTok (e : Err) : String :=
+  match e with
+  | .panic => "PANIC"
+  | .hang => "HANG"
+  | e => s!"ERR {e.code}"
+
+/-- error token followed by the bytes, except for PANIC/HANG which stand alone -/
+def errTokFat (e : Err) (f : Array Nat) : String :=
+  match e with
+  | .panic => "PANIC"
+  | .hang => "HANG"
+  | e => s!"ERR {e.code} {hexOf f}"
+
+def encValue : FatValue → String
+  | .free => "0 0"
+  | .data n => s!"1 {n}"
+  | .bad => "2 0"
+  | .eoc => "3 0"
+
+def decValue (kind n : Nat) : FatValue :=
+  if kind = 0 then .free else if kind = 1 then .data n else if kind = 2 then .bad else .eoc
+
+def showList (l : List Nat) : String :=
+  if l.isEmpty then "-" else ",".intercalate (l.map toString)
+
+def showRes (r : Res Nat) : String :=
+  match r.out with
+  | .ok n => s!"{n} {hexOf r.fat}"
+  | .error e => errTokFat e r.fat
+
+def handle (fn : String) (args : List String) : Option String :=
+  match fn, args with
+  | "fat.get", [b, fh, c] => do
+    let bits ← natOf b; let f ← fatOf fh; let c ← natOf c
+    match get (FatType.ofBits bits) f c with
+    | .ok v => some (encValue v)
+    | .error e => some (errTok e)
+  | "fat.set", [b, fh, c, k, n] => do
+    let bits ← natOf b; let f ← fatOf fh; let c ← natOf c; let k ← natOf k; let n ← natOf n
+    match set (FatType.ofBits bits) f c (decValue k n) with
+    | .ok f' => some (hexOf f')
+    | .error e => some (errTok e)
+  | "fat.find_free", [b, fh, s, e] => do
+    let bits ← natOf b; let f ← fatOf fh; let s ← natOf s; let e ← natOf e
+    match findFree (FatType.ofBits bits) f s e with
+    | .ok c => some (toString c)
+    | .error e => some (errTok e)
+  | "fat.count_free", [b, fh, t] => do
+    let bits ← natOf b; let f ← fatOf fh; let t ← natOf t
+    match countFree (FatType.ofBits bits) f t with
+    | .ok c => some (toString c)
+    | .error e => some (errTok e)
+  | "fat.alloc", [b, fh, p, h, t] => do
+    let bits ← natOf b; let f ← fatOf fh; let p ← optNatOf p; let h ← optNatOf h; let t ← natOf t
+    some (showRes (allocCluster f (FatType.ofBits bits) p h t))
+  | "fat.free", [b, fh, c, bud] => do
+    let bits ← natOf b; let f ← fatOf fh; let c ← natOf c; let bud ← natOf bud
+    some (showRes (freeChain (FatType.ofBits bits) f c bud))
+  | "fat.truncate", [b, fh, c, bud] => do
+    let bits ← natOf b; let f ← fatOf fh; let c ← natOf c; let bud ← natOf bud
+    some (showRes (truncateChain (FatType.ofBits bits) f c bud))
+  | "fat.chain", [b, fh, c, m] => do
+    let bits ← natOf b; let f ← fatOf fh; let c ← natOf c; let m ← natOf m
+    match chain (FatType.ofBits bits) f c m with
+    | .ok cs => some (showList cs)
+    | .error e => some (errTok e)
+  | "fat.flags", [b, fh] => do
+    let bits ← natOf b; let f ← fatOf fh
+    match readFatFlags (FatType.ofBits bits) f with
+    | .ok (d, i) => some s!"{showBool d} {showBool i}"
+    | .error e => some (errTok e)
+  | "fat.format", [b, m, bpf, t] => do
+    let bits ← natOf b; let m ← natOf m; let bpf ← natOf bpf; let t ← natOf t
+    let r := formatFat (FatType.ofBits bits) (Array.replicate bpf 0) m bpf t
+    match r.out with
+    | .ok () => some (hexOf r.fat)
+    | .error e => some (errTokFat e r.fat)
+  | _, _ => none
+
+/-! ## oracles on the implementation's output (independent decoder `FatSpec`) -/
+
+open FatVerif.FatSpec in
+/-- FAT32 reserved nibbles must survive any operation -/
+def topOracle (bits : Nat) (f f' : Array Nat) : Option String :=
+  if bits ≠ 32 then none else
+  match topDiff f f' (entryCount 32 f) with
+  | [] => none
+  | k :: _ => some s!"C10 reserved-bits-changed entry={k} before={specTop f k} after={specTop f' k}"
+
+open FatVerif.FatSpec in
+def reservedOracle (bits : Nat) (f f' : Array Nat) : Option String :=
+  match diffEntries bits f f' 0 (min 2 (entryCount bits f)) with
+  | [] => none
+  | k :: _ => some s!"C10 reserved-entries-changed entry={k}"
+
+def firstSome (l : List (Option String)) : Option String := l.findSome? id
+
+open FatVerif.FatSpec in
+/-- `fat.alloc`; preconditions of the properties: the table covers `[0,total+2)`, hint absent or ≥ 2,
+    prev absent or an allocated in-range entry -/
+def allocOracle (bits : Nat) (f : Array Nat) (prev hint : Option Nat) (total : Nat) (implOut : List String) :
+    Option String :=
+  let n := total + 2
+  let hintOk := match hint with | some h => decide (2 ≤ h) | none => true
+  let prevOk := match prev with
+    | some p => decide (2 ≤ p ∧ p < n) && specEntry bits f p != 0
+    | none => true
+  if !(covers bits f n) || !hintOk || !prevOk then none else
+  match implOut with
+  | ["ERR", code, _] =>
+    if code = "9" ∧ specHasFree bits f total then some "C05 nospace-unsound free-entry-exists" else none
+  | [cs, fh] =>
+    match cs.toNat?, fatOf fh with
+    | some c, some f' =>
+      if c < 2 ∨ n ≤ c then some s!"C03 alloc-bad-cluster returned={c} total={total}"
+      else if specEntry bits f c ≠ 0 then some s!"C03 alloc-bad-cluster returned={c} not-free-before"
+      else if f'.size ≠ f.size then some "C03 alloc-frame length-changed"
+      else
+        let expectC := if prev = some c then FatValue.data c else FatValue.eoc
+        let others := (diffEntries bits f f' 0 (entryCount bits f)).filter fun k => k ≠ c ∧ some k ≠ prev
+        firstSome [
+          (if specValue bits f' c ≠ expectC then some s!"C03 alloc-frame new-entry-not-eoc c={c}" else none),
+          (match prev with
+            | some p => if specValue bits f' p ≠ .data c then some s!"C03 alloc-frame prev-not-linked prev={p}" else none
+            | none => none),
+          (match others with | [] => none | k :: _ => some s!"C03 alloc-frame other-entry-changed entry={k}"),
+          topOracle bits f f',
+          reservedOracle bits f f']
+    | _, _ => none
+  | _ => none
+
+open FatVerif.FatSpec in
+/-- `fat.free` / `fat.truncate` on an acyclic chain whose members all lie in `[2, entryCount)` -/
+def chainOracle (trunc : Bool) (bits : Nat) (f : Array Nat) (c : Nat) (implOut : List String) : Option String :=
+  match implOut with
+  | ["HANG"] => some s!"C09 chain-free-hang start={c}"
+  | [ns, fh] =>
+    let n := entryCount bits f
+    match specChain bits f n (n + 1) c, ns.toNat?, fatOf fh with
+    | some cs, some cnt, some f' =>
+      if !cs.Nodup then none else
+      let freed := if trunc then cs.drop 1 else cs
+      let changed := diffEntries bits f f' 0 n
+      firstSome [
+        (if cnt ≠ freed.length then some s!"C05 free-chain-wrong count={cnt} expected={freed.length}" else none),
+        (if f'.size ≠ f.size then some "C05 free-chain-wrong length-changed" else none),
+        (match freed.filter (fun k => specEntry bits f' k ≠ 0) with
+          | [] => none | k :: _ => some s!"C05 free-chain-wrong member-not-freed entry={k}"),
+        (if trunc ∧ specValue bits f' c ≠ .eoc then some s!"C05 free-chain-wrong truncate-no-eoc entry={c}" else none),
+        (match changed.filter (fun k => !cs.contains k) with
+          | [] => none | k :: _ => some s!"C05 free-chain-wrong non-member-changed entry={k}"),
+        topOracle bits f f',
+        reservedOracle bits f f']
+    | _, _, _ => none
+  | _ => none
+
+open FatVerif.FatSpec in
+def oracle (fn : String) (args : List String) (implOut : List String) : Option String :=
+  match fn, args with
+  | "fat.count_free", [b, fh, t] => do
+    let bits ← natOf b; let f ← fatOf fh; let t ← natOf t
+    if !(covers bits f (t + 2)) then none else
+    match implOut with
+    | [ns] =>
+      match ns.toNat? with
+      | some n => if n ≠ specCountFree bits f t then
+          some s!"C05 count-free-wrong got={n} expected={specCountFree bits f t}" else none
+      | none => some s!"C05 count-free-wrong got={ns} expected={specCountFree bits f t}"
+    | _ => some s!"C05 count-free-wrong got=error expected={specCountFree bits f t}"
+  | "fat.set", [b, fh, c, k, n] => do
+    let bits ← natOf b; let f ← fatOf fh; let _ ← natOf c; let k ← natOf k; let n ← natOf n
+    -- a caller-supplied link value ≥ 2^28 is not a cluster number (no caller produces one): outside the property
+    if k = 1 ∧ 268435456 ≤ n then none else
+    match implOut with
+    | [fh'] => do let f' ← fatOf fh'; topOracle bits f f'
+    | _ => none
+  | "fat.alloc", [b, fh, p, h, t] => do
+    let bits ← natOf b; let f ← fatOf fh; let p ← optNatOf p; let h ← optNatOf h; let t ← natOf t
+    allocOracle bits f p h t implOut
+  | "fat.free", [b, fh, c, _] => do
+    let bits ← natOf b; let f ← fatOf fh; let c ← natOf c
+    chainOracle false bits f c implOut
+  | "fat.truncate", [b, fh, c, _] => do
+    let bits ← natOf b; let f ← fatOf fh; let c ← natOf c
+    chainOracle true bits f c implOut
+  | _, _ => none
+
+/-! ## branch labels -/
+
+def firstTok (s : String) : String := (s.splitOn " ").headD ""
+
+def outClass (o : Option String) : String :=
+  match o with
+  | none => "?"
+  | some s =>
+    let t := firstTok s
+    if t = "ERR" then "err" ++ ((s.splitOn " ").getD 1 "") else if t = "PANIC" then "panic"
+    else if t = "HANG" then "hang" else "ok"
+
+def hintClass (h : Option Nat) (total : Nat) : String :=
+  match h with
+  | none => "none"
+  | some n => if n < 2 then "lt2" else if n = 2 then "2" else if n + 1 < total + 2 then "mid"
+    else if n + 1 = total + 2 then "last" else if n = total + 2 then "end" else "beyond"
+
+def branch (fn : String) (args : List String) : String :=
+  let bits := args.headD "?"
+  let o := handle fn args
+  match fn, args with
+  | "fat.get", _ =>
+    (match o with
+      | some s => if firstTok s = "ERR" ∨ firstTok s = "PANIC" then bits ++ "/" ++ outClass o
+                  else bits ++ "/kind" ++ firstTok s
+      | none => bits ++ "/?")
+  | "fat.alloc", [_, _, p, h, t] =>
+    let hc := match optNatOf h, natOf t with | some h, some t => hintClass h t | _, _ => "?"
+    bits ++ "/prev-" ++ (if p = "none" then "none" else "some") ++ "/hint-" ++ hc ++ "/" ++ outClass o
+  | "fat.format", _ => bits ++ "/" ++ outClass o
+  | _, _ => bits ++ "/" ++ outClass o
 
 end FatVerif.FatDriver
